@@ -26,7 +26,7 @@ func init() {
 }
 
 func runC11(c *Check) {
-	p := c.P.ByRel["storage"]
+	p := c.P.CodecPkg("storage")
 	if p == nil {
 		c.Undecided("R0", "anchor:internal/storage", token.NoPos, "package not loaded")
 		return
@@ -39,6 +39,9 @@ func runC11(c *Check) {
 			return
 		}
 		pr := codecPair{name, extractCodec(p, w, true), extractCodec(p, r, false)}
+		// "nothing stored" (no file / empty file) is not part of the byte grammar of a stored record:
+		// a top-level alternative with an empty side is reduced to its non-empty side on both sides
+		pr.Writer.Ops, pr.Reader.Ops = stripEmptyTopAlt(pr.Writer.Ops), stripEmptyTopAlt(pr.Reader.Ops)
 		// a reader that loops until the data is exhausted matches an uncounted trailing writer loop
 		if n := len(pr.Writer.Ops); n > 0 && len(pr.Reader.Ops) == n {
 			relax(pr.Writer.Ops, pr.Reader.Ops)
@@ -170,7 +173,7 @@ func runC11(c *Check) {
 	}
 
 	// ---- R5 client.Tx codec
-	if cp := c.P.ByRel["client"]; cp != nil {
+	if cp := c.P.CodecPkg("client"); cp != nil {
 		for _, pr := range codecPairsIn(cp, "Serialize", "Deserialize") {
 			if pr.Name == "Tx" || pr.Name == "TxState" || pr.Name == "MerkleProof" {
 				c.compareCodecPair("R5", "client", pr)
@@ -227,4 +230,12 @@ func constAsInt(v ssa.Value) (int64, bool) {
 		return int64(f), true
 	}
 	return 0, false
+}
+
+// stripEmptyTopAlt: [Alt{X|}] -> X (only at the top level, only when the whole grammar is that Alt).
+func stripEmptyTopAlt(ops []cop) []cop {
+	if len(ops) == 1 && ops[0].Kind == "Alt" && len(ops[0].B) == 0 {
+		return ops[0].A
+	}
+	return ops
 }
